@@ -370,7 +370,10 @@ void Transportation1dSolver::checkSolutionOptimal(const Solution &alloc) const {
         snk = nxt - 1;
         break;
       }
-      gain += gainRight[nxt];
+      // The last sink has no move to the right (sentinel value)
+      if (nxt + 1 < nbSinks()) {
+        gain += gainRight[nxt];
+      }
     }
   }
 
@@ -388,7 +391,10 @@ void Transportation1dSolver::checkSolutionOptimal(const Solution &alloc) const {
         snk = nxt + 1;
         break;
       }
-      gain += gainLeft[nxt];
+      // The first sink has no move to the left (sentinel value)
+      if (nxt >= 1) {
+        gain += gainLeft[nxt];
+      }
     }
   }
 }
